@@ -43,6 +43,12 @@ where
                     to - from,
                 )
             };
+            #[cfg(feature = "verif")]
+            rawdb::verif::access(
+                rawdb::verif::AccessKind::Mmap,
+                src.as_ptr() as usize,
+                size_of_val(src),
+            );
             buf.extend_from_slice(src);
         } else {
             self.fold_source(from, to, len, (), |(), v| buf.push(v));
